@@ -3,9 +3,11 @@ package harness
 // C16: the result document is self-consistent and JSON-stable.
 
 import (
+	"bytes"
 	"encoding/base64"
 	"encoding/json"
 	"fmt"
+	"io"
 	"math"
 	"net"
 	"reflect"
@@ -468,6 +470,85 @@ func TestC16ConcurrentIDs(t *testing.T) {
 			ds = append(ds, Diff{"C16", "id-format", fmt.Sprintf("%d identifiers are not URL-safe base64 of 16 bytes", bad)})
 		}
 		rec.CaseEnumerated(true, map[string]any{"gomaxprocs": c.Procs, "identifiers": len(seen)})
+		return ds
+	})
+}
+
+// TestC16AfterFailedWrite: what one client gets must not depend on what happened to another client's answer: a
+// response that could not be written (the client hung up) is followed by ordinary requests, each of which must get
+// exactly one document of its own.
+func TestC16AfterFailedWrite(t *testing.T) {
+	rec := NewRecorder("C16", "C16AfterFailedWrite", "enumeration through the HTTP handler over the simulated wire: a request whose response writer fails at once / after 200 / after 5000 bytes (documents of 4 runs x 12 hops, several kB), then three ordinary requests with other parameters; oracle: every ordinary response body is exactly one JSON document (nothing before or after it) that decodes to a result with the requested number of runs and identifiers that appear in no earlier document, including the one that could not be delivered; non-trivial always")
+	rec.Exhaustive = true
+	type seqCase struct {
+		FailAfter int `json:"write_fails_after"`
+	}
+	RunCases(t, rec, func(yield func(*seqCase) bool) {
+		for _, n := range []int{-1, 200, 5000, 1} {
+			if !yield(&seqCase{n}) {
+				return
+			}
+		}
+	}, func(t *testing.T, c *seqCase, rec *Recorder) []Diff {
+		var ds []Diff
+		add := func(sig, f string, a ...any) { ds = append(ds, Diff{"C16", sig, fmt.Sprintf(f, a...)}) }
+		mk := func(q, maxTTL int) *Request {
+			rq := &Request{HTTP: true, Scripts: []FlowScript{{DestDist: 0, Default: HopSpec{DelayUs: 1000}}}}
+			rq.P = ReqParams{Hostname: "93.184.216.34", Port: 443, Protocol: "udp", MinTTL: 1, MaxTTL: maxTTL, DelayMs: 50, TimeoutMs: 20, Queries: q, E2e: 0}
+			return rq
+		}
+		seen := map[string]string{}
+		note := func(doc *result.Results, who string) {
+			seen[doc.TestRunID] = who
+			for _, r := range doc.Traceroute.Runs {
+				seen[r.RunID] = who
+			}
+		}
+		first := mk(4, 12)
+		first.WriteFailsAfter = c.FailAfter
+		o := RunRequest(t, first)
+		if o.Panic != "" || o.Deadlock != "" {
+			return []Diff{{"C09", "crash", o.Panic + o.Deadlock}}
+		}
+		var lost result.Results
+		if json.Unmarshal(o.Attempted, &lost) == nil {
+			note(&lost, "the document that could not be delivered")
+		}
+		for i, q := range []int{1, 2, 3} {
+			rq := mk(q, 3+i)
+			o := RunRequest(t, rq)
+			if o.Panic != "" || o.Deadlock != "" || o.Err != nil {
+				add("request-failed", "request %d after the failed write: %v %s%s", i+1, o.Err, o.Panic, o.Deadlock)
+				break
+			}
+			dec := json.NewDecoder(bytes.NewReader(o.Body))
+			var doc result.Results
+			if err := dec.Decode(&doc); err != nil {
+				add("body-not-a-document", "request %d after a response write that failed (after %d bytes): the body does not decode: %v; it begins %q", i+1, c.FailAfter, err, string(o.Body[:min(len(o.Body), 80)]))
+				break
+			}
+			var extra any
+			if err := dec.Decode(&extra); err != io.EOF {
+				add("more-than-one-document", "request %d after a response write that failed (after %d bytes): the body holds more than one JSON value (%d bytes in all)", i+1, c.FailAfter, len(o.Body))
+				break
+			}
+			if len(doc.Traceroute.Runs) != q {
+				add("someone-elses-document", "request %d asked for %d runs and got a document with %d", i+1, q, len(doc.Traceroute.Runs))
+			}
+			for _, id := range append([]string{doc.TestRunID}, func() []string {
+				var x []string
+				for _, r := range doc.Traceroute.Runs {
+					x = append(x, r.RunID)
+				}
+				return x
+			}()...) {
+				if who, dup := seen[id]; dup {
+					add("id-reused", "request %d: identifier %q already appeared in %s", i+1, id, who)
+				}
+			}
+			note(&doc, fmt.Sprintf("the answer to request %d", i+1))
+		}
+		rec.CaseEnumerated(true, c, fmt.Sprintf("fails_after:%d", c.FailAfter))
 		return ds
 	})
 }
